@@ -578,8 +578,14 @@ where
             let mut buffer = vec![0; want_bytes];
             let n = self.file.read(&mut buffer)?;
             assert!(n <= left);
-            // Can't get EOF here.
-            assert_ne!(n, 0);
+            if n == 0 {
+                // The file is shorter than the archive member header (or the
+                // size at open time) promised: truncated archive.
+                return Err(Error::msg(format!(
+                    "SigMF data ended with {} bytes still expected",
+                    self.left
+                )));
+            }
             self.left -= n as u64;
             self.buf.extend(&buffer[..n]);
         }
